@@ -163,7 +163,7 @@ func (h *sessHarness) loadState(path string) {
 	}
 	h.ck = s.Cookie
 	h.applyCookieCfg()
-	sessions.Persistence = h.st
+	sessions.Persistence = viaExtendable(h.st)
 	if d := s.Now - nowRel(); d > 0 {
 		time.Sleep(time.Duration(d))
 	}
@@ -365,7 +365,7 @@ func runSess(scriptPath, outPath, stateIn, stateOut string, from int) {
 		ck: cookieCfg{Name: "id", HTTPOnly: true, MaxAge: 315360000, ExpOff: 315360000}}
 	rand.Reader = h.rng
 	h.st.mainG = mainG
-	sessions.Persistence = h.st
+	sessions.Persistence = viaExtendable(h.st)
 	h.applyCookieCfg()
 	if stateIn != "" {
 		h.loadState(stateIn)
